@@ -106,7 +106,7 @@ def run(tier, seed):
                                              key=key)
                 ops = [('select', (), 0)] + [('match', sc.path_of[id(e)]) for e in elements[:15]]
                 sc.add(s, ops, namespaces=nsmap, custom=custom)
-            if style == 'nasty':
+            if style in ('nasty', 'odd'):
                 # every state pseudo-class once on the whole document (all of them walk forms / ancestors / attributes)
                 for s in (':in-range', ':out-of-range', ':dir(ltr)', ':dir(rtl)', ':lang(en)', ':default', ':indeterminate',
                           ':placeholder-shown', ':read-write', ':read-only', ':checked', ':enabled', ':disabled', ':required',
